@@ -47,7 +47,7 @@ Definition ho_ibb_close_unregisters : bool := true.
 Definition ho_ibb_close_under_read_lock : bool := true.
 Definition ho_ibb_both_closes_use_closeread : bool := true.
 Definition ho_ibb_yields : list bytes := [hex "6962622e726561642e636865636b6564"; hex "6962622e726561642e776f6b656e"; hex "6962622e7061796c6f61642e6c6f636b6564"]. (* ibb.read.checked ibb.read.woken ibb.payload.locked *)
-Definition ho_ibb_serve_close_blocking_write_locks : nat := 1.
+Definition ho_ibb_serve_close_blocking_write_locks : nat := 0.
 Definition ho_ibb_serve_close_try_write_locks : nat := 1.
 Definition ho_ibb_serve_close_sets_abort : bool := true.
 Definition ho_ibb_serve_close_returns_error : bool := false.
